@@ -75,6 +75,14 @@ impl FileFormatter {
             }
         });
 
+        // A file named more than once (repeated or overlapping arguments) is formatted once:
+        // two workers rewriting the same file in place would race with each other.
+        let mut seen = std::collections::HashSet::new();
+        expanded_paths.retain(|path| match path {
+            Ok(path) => seen.insert(path.canonicalize().unwrap_or_else(|_| path.clone())),
+            Err(_) => true,
+        });
+
         expanded_paths
     }
 
